@@ -156,6 +156,7 @@ class Acc:
         self.digest = 0
         self.skipped = Counter()
         self.recent = []
+        self.first = None  # ops of the first case this worker ran (lazy initialisation captures it)
 
     def run(self, execute, case, seconds=60, isolate=False):
         from .simio import watchdog, HarnessTimeout
@@ -171,6 +172,9 @@ class Acc:
         if res.get("violations") and self.failures and self.failures[-1]["case"] is case:
             self.failures[-1]["prefix_ops"] = [] if isolate else [op for ops in self.recent for op in ops]
             self.failures[-1]["isolated"] = bool(isolate)
+            self.failures[-1]["first_ops"] = [] if isolate else list(self.first or ())
+        if self.first is None:
+            self.first = list(case.get("ops", ()))
         self.recent.append(list(case.get("ops", ())))
         del self.recent[:-3]
         return res
@@ -369,12 +373,12 @@ def run_check(pid, tier, seed, workers=None, quiet=False):
         size = len(json.dumps(f["case"]))
         for s in f["violations"]:
             rank = (0 if f.get("isolated") else 1, size)
-            cands.setdefault(sig_key(s), []).append((rank, f["case"], s, f.get("prefix_ops") or []))
+            cands.setdefault(sig_key(s), []).append((rank, f["case"], s, f.get("prefix_ops") or [], f.get("first_ops") or []))
     by_key = {}
     for k, lst in cands.items():
         lst.sort(key=lambda t: t[0])
         lst = [t for t in lst if t[0][0] == 0][:4] + [t for t in lst if t[0][0] == 1][:3]
-        by_key[k] = [(c, s, sz, pre) for sz, c, s, pre in lst]
+        by_key[k] = [(c, s, sz, pre, first) for sz, c, s, pre, first in lst]
 
     exit_code = 0
     new_violations = 0
@@ -405,12 +409,12 @@ def run_check(pid, tier, seed, workers=None, quiet=False):
     minimise_total_end = time.time() + float(os.environ.get("VERIF_MINIMISE_TOTAL_S", 150))
     if os.environ.get("VERIF_LIST_ONLY") == "1":
         for k in sorted(by_key):
-            case, sig, _, _ = by_key[k][0]
+            case, sig = by_key[k][0][:2]
             n = sum(1 for f in total.failures for s_ in f["violations"] if sig_key(s_) == k)
             print("CLASS %s  (n=%d)\n      %s" % (k, n, json.dumps(sig.get("detail"), sort_keys=True)[:400]))
         return 3
     for k in sorted(by_key):
-        case, sig, _, prefix_ops = by_key[k][0]
+        case, sig = by_key[k][0][:2]
         open_match = [e for e in findings if e["status"] == "open" and matches(sig, e["match"])]
         if open_match:
             known_hit[open_match[0]["id"]] = open_match[0]
@@ -420,7 +424,7 @@ def run_check(pid, tier, seed, workers=None, quiet=False):
             continue
         # prefer a failing case that reproduces on its own in a pristine process; if the
         # verdict depended on earlier cases of the same worker, rebuild that history
-        for c, s_, _, pre in by_key[k]:
+        for c, s_, _, pre, first in by_key[k]:
             if time.time() > minimise_total_end + 60:
                 break
             if _has(mod, c, k):
@@ -429,6 +433,11 @@ def run_check(pid, tier, seed, workers=None, quiet=False):
             longer = dict(c, ops=pre + list(c["ops"]))
             if pre and _has(mod, longer, k):
                 case, sig = longer, s_
+                break
+            # lazily initialised process state is captured from the first case a worker ran
+            longest = dict(c, ops=first + pre + list(c["ops"]))
+            if first and _has(mod, longest, k):
+                case, sig = longest, s_
                 break
         small = minimise(mod, case, k, max(2.0, min(minimise_budget, minimise_total_end - time.time())))
         name = "%s-%s.json" % (pid, seeds.digest(k))
